@@ -29,6 +29,7 @@ theorem stepW_st (cfg : Cfg) (w : WSt) (ev : Ev) : (stepW cfg w ev).st = step cf
   | startSlow => rfl
   | dialDone k => rfl
   | dialGiveUp => rfl
+  | staleAnswer j => rfl
   | answer j => simp only; split <;> rfl
   | ret =>
     simp only
@@ -51,6 +52,7 @@ theorem stepW_orphans (cfg : Cfg) (hw : cfg.watchdog = false) (w : WSt) (ev : Ev
   | startSlow => rfl
   | dialDone k => rfl
   | dialGiveUp => rfl
+  | staleAnswer j => rfl
   | answer j => simp only; split <;> rfl
   | ret =>
     simp only
@@ -240,7 +242,7 @@ structure Quiet (w : WSt) : Prop where
 
 theorem timedOut_leaks (cfg : Cfg) (hg : cfg.good = true) (hw : cfg.watchdog = true) (w : WSt) (hq : Quiet w) :
     Quiet (runW cfg w timedOut) ∧ (runW cfg w timedOut).orphans = w.orphans + 1 := by
-  have hc : cfg.closesConn = true := by simp [Cfg.good] at hg; exact hg.1.1.1.1.1.1
+  have hc : cfg.closesConn = true := (Cfg.good_unpack hg).closesConn
   obtain ⟨st, armed, orphans⟩ := w
   obtain ⟨h1, h2, h3, h4, h5, h6, h7, h8⟩ := hq
   simp only at h1 h2 h3 h4 h5 h6 h7 h8
